@@ -2,10 +2,10 @@
    whether a transfer must ask the payability oracle, as REGENERATED from /repo's current Go sources on this very
    run (gen/Pure.v, module P, written by tools/srcgen/pure.go; None = panic).  The function reads three fields of
    *vmcommon.ContractCallInput; [cci_of i] is that view of the model's input record i (call type as a Go int).
-   Only statements, each closed by [exact] of lemmas of Helpers/PureTie.v and LedgerProofs/C09_Admissible.v. *)
+   Only statements, each closed by [exact] of lemmas of Helpers/PureTie_*.v and LedgerProofs/C09_Admissible.v. *)
 From Coq.Strings Require Import String.
 From EV Require Import Base.Bytes gen.Consts Base.GoSem gen.Pure Helpers.Helpers Ledger.Types Ledger.Env
-  LedgerProofs.C09_Admissible Helpers.PureTie.
+  LedgerProofs.C09_Admissible Helpers.PureTie_Base Helpers.PureTie_Payable.
 
 Example C09_src_view : forall i,
   cci_of i = {| P.ContractCallInput_Arguments := i_args i; P.ContractCallInput_CallType := Z.of_N (i_callType i);
